@@ -68,8 +68,7 @@ def _history(draw, knob):
             steps.append({"op": "edit", "ir": draw(c09._ir())})
         else:
             k = draw(st.sampled_from(KEYS))
-            allowed = [s_ for s_ in project.STATES if not (base["method"] and k == "function" and s_ in ("missing", "empty", "absent", "placeholder"))
-                       and not (s_ == "placeholder" and k != "class")]  # (function-kind placeholders: finding KF-N06 of C09)
+            allowed = [s_ for s_ in project.STATES if not (base["method"] and k == "function" and s_ in ("missing", "empty", "absent", "placeholder"))]
             steps.append({"op": "touch", "kind": k, "state": draw(st.sampled_from(allowed)), "ir": draw(c09._ir())})
     if steps[-1]["op"] != "sync":
         steps.append({"op": "sync", "truth": None})
